@@ -23,21 +23,21 @@ theorem guards_sites_simplify : Generated.guardSitesSimplify =
 
 theorem guards_context_simplify : Generated.guardContextSimplify =
     [
-     ("guard_simplify_infer_constant", ["for deme in data['demes']", "for epoch in deme['epochs']"]),
-     ("guard_simplify_size_function", ["for deme in data['demes']", "for epoch in deme['epochs']"]),
-     ("guard_simplify_end_size", ["for deme in data['demes']", "for epoch in deme['epochs']"]),
-     ("guard_simplify_selfing", ["for deme in data['demes']", "for epoch in deme['epochs']"]),
-     ("guard_simplify_cloning", ["for deme in data['demes']", "for epoch in deme['epochs']"]),
-     ("guard_simplify_start_inf", ["for deme in data['demes']"]),
-     ("guard_simplify_single_ancestor", ["for deme in data['demes']"]),
-     ("guard_simplify_unit_proportion", ["for deme in data['demes']", "if 'ancestors' in deme and len(deme['ancestors']) == 1"]),
-     ("guard_simplify_start_implied", ["for deme in data['demes']", "if 'ancestors' in deme and len(deme['ancestors']) == 1"]),
-     ("guard_simplify_mig_end", ["for migration in data['migrations']"]),
-     ("guard_simplify_mig_start", ["for migration in data['migrations']"]),
-     ("guard_simplify_single_pair", ["for (k, pairs) in rate_sets.items()"]),
-     ("guard_simplify_search_loop", ["for (k, pairs) in rate_sets.items()"]),
-     ("guard_collapse_first", ["for pair in pairs"]),
-     ("guard_collapse_second", ["for pair in pairs"]),
+     ("guard_simplify_infer_constant", ["for v0 in p0['demes']", "for v1 in v0['epochs']"]),
+     ("guard_simplify_size_function", ["for v0 in p0['demes']", "for v1 in v0['epochs']"]),
+     ("guard_simplify_end_size", ["for v0 in p0['demes']", "for v1 in v0['epochs']"]),
+     ("guard_simplify_selfing", ["for v0 in p0['demes']", "for v1 in v0['epochs']"]),
+     ("guard_simplify_cloning", ["for v0 in p0['demes']", "for v1 in v0['epochs']"]),
+     ("guard_simplify_start_inf", ["for v0 in p0['demes']"]),
+     ("guard_simplify_single_ancestor", ["for v0 in p0['demes']"]),
+     ("guard_simplify_unit_proportion", ["for v0 in p0['demes']", "if 'ancestors' in v0 and len(v0['ancestors']) == 1"]),
+     ("guard_simplify_start_implied", ["for v0 in p0['demes']", "if 'ancestors' in v0 and len(v0['ancestors']) == 1"]),
+     ("guard_simplify_mig_end", ["for v8 in p1['migrations']"]),
+     ("guard_simplify_mig_start", ["for v8 in p1['migrations']"]),
+     ("guard_simplify_single_pair", ["for (v13, v14) in v7.items()"]),
+     ("guard_simplify_search_loop", ["for (v13, v14) in v7.items()"]),
+     ("guard_collapse_first", ["for v4 in p2"]),
+     ("guard_collapse_second", ["for v4 in p2"]),
      ("guard_simplify_has_migrations", []),
      ("guard_asdict_keep_field", [])] := by decide +kernel
 
@@ -45,63 +45,63 @@ theorem guards_context_simplify : Generated.guardContextSimplify =
 `demeSimplifiedWith`) -/
 theorem guards_simplify_epochs_deletes : Generated.simplifyEpochsDeletes =
     [
-     ("epoch['size_function']", ["for deme in data['demes']", "for epoch in deme['epochs']", "if epoch['size_function'] == inferred_size_function"]),
-     ("epoch['end_size']", ["for deme in data['demes']", "for epoch in deme['epochs']", "if epoch['start_size'] == epoch['end_size']"]),
-     ("epoch['selfing_rate']", ["for deme in data['demes']", "for epoch in deme['epochs']", "if epoch['selfing_rate'] == 0"]),
-     ("epoch['cloning_rate']", ["for deme in data['demes']", "for epoch in deme['epochs']", "if epoch['cloning_rate'] == 0"]),
-     ("deme['start_time']", ["for deme in data['demes']", "if math.isinf(deme['start_time'])"]),
-     ("deme['proportions']", ["for deme in data['demes']", "if 'ancestors' in deme and len(deme['ancestors']) == 1", "if deme['proportions'] == [1]"]),
-     ("deme['start_time']", ["for deme in data['demes']", "if 'ancestors' in deme and len(deme['ancestors']) == 1", "if self[deme['ancestors'][0]].end_time == deme['start_time']"])] := by decide +kernel
+     ("v1['size_function']", ["for v0 in p0['demes']", "for v1 in v0['epochs']", "if v1['size_function'] == v2"]),
+     ("v1['end_size']", ["for v0 in p0['demes']", "for v1 in v0['epochs']", "if v1['start_size'] == v1['end_size']"]),
+     ("v1['selfing_rate']", ["for v0 in p0['demes']", "for v1 in v0['epochs']", "if v1['selfing_rate'] == 0"]),
+     ("v1['cloning_rate']", ["for v0 in p0['demes']", "for v1 in v0['epochs']", "if v1['cloning_rate'] == 0"]),
+     ("v0['start_time']", ["for v0 in p0['demes']", "if math.isinf(v0['start_time'])"]),
+     ("v0['proportions']", ["for v0 in p0['demes']", "if 'ancestors' in v0 and len(v0['ancestors']) == 1", "if v0['proportions'] == [1]"]),
+     ("v0['start_time']", ["for v0 in p0['demes']", "if 'ancestors' in v0 and len(v0['ancestors']) == 1", "if self[v0['ancestors'][0]].end_time == v0['start_time']"])] := by decide +kernel
 
 theorem guards_simplify_migrations_deletes : Generated.simplifyMigrationsDeletes =
     [
-     ("migration['end_time']", ["for migration in data['migrations']", "if migration['end_time'] == time_lo"]),
-     ("migration['start_time']", ["for migration in data['migrations']", "if migration['start_time'] == time_hi"])] := by decide +kernel
+     ("v8['end_time']", ["for v8 in p1['migrations']", "if v8['end_time'] == v12"]),
+     ("v8['start_time']", ["for v8 in p1['migrations']", "if v8['start_time'] == v11"])] := by decide +kernel
 
 /-- `inferred_size_function` is "constant" under the equal-sizes test and "exponential" otherwise -/
 theorem guards_simplify_epochs_locals : Generated.simplifyEpochsLocals =
     [
-     ("inferred_size_function", "'constant'", ["for deme in data['demes']", "for epoch in deme['epochs']", "if epoch['start_size'] == epoch['end_size']"]),
-     ("inferred_size_function", "'exponential'", ["for deme in data['demes']", "for epoch in deme['epochs']", "else of if epoch['start_size'] == epoch['end_size']"])] := by decide +kernel
+     ("v2", "'constant'", ["for v0 in p0['demes']", "for v1 in v0['epochs']", "if v1['start_size'] == v1['end_size']"]),
+     ("v2", "'exponential'", ["for v0 in p0['demes']", "for v1 in v0['epochs']", "else of if v1['start_size'] == v1['end_size']"])] := by decide +kernel
 
 /-- `asdict(keep_empty_fields=False)`, then `simplify_migration_rates` if there are migrations, then `simplify_epochs` -/
 theorem guards_simplify_calls : Generated.simplifyCalls =
-    [("self.asdict(keep_empty_fields=False)", []), ("simplify_migration_rates(data)", ["if 'migrations' in data"]), ("simplify_epochs(data)", [])] := by decide +kernel
+    [("self.asdict(keep_empty_fields=False)", []), ("simplify_migration_rates(v23)", ["if 'migrations' in v23"]), ("simplify_epochs(v23)", [])] := by decide +kernel
 
 /-! ### epochs -/
 
 theorem guard_simplify_infer_constant_meaning (s e : Q) :
-    Generated.guard_simplify_infer_constant (epoch_start_size := .fin s) (epoch_end_size := .fin e) = decide (s = e) := by
+    Generated.guard_simplify_infer_constant (v1_start_size := .fin s) (v1_end_size := .fin e) = decide (s = e) := by
   unfold Generated.guard_simplify_infer_constant
   guard_close
 
 theorem guard_simplify_size_function_meaning (f inferred : String) :
-    Generated.guard_simplify_size_function (epoch_size_function := f) (inferred_size_function := inferred)
+    Generated.guard_simplify_size_function (v1_size_function := f) (v2 := inferred)
       = decide (f = inferred) := by
   unfold Generated.guard_simplify_size_function
   first | rfl | simp | grind
 
 theorem guard_simplify_end_size_meaning (s e : Q) :
-    Generated.guard_simplify_end_size (epoch_start_size := .fin s) (epoch_end_size := .fin e) = decide (s = e) := by
+    Generated.guard_simplify_end_size (v1_start_size := .fin s) (v1_end_size := .fin e) = decide (s = e) := by
   unfold Generated.guard_simplify_end_size
   guard_close
 
 theorem guard_simplify_selfing_meaning (x : Q) :
-    Generated.guard_simplify_selfing (epoch_selfing_rate := .fin x) = decide (x = 0) := by
+    Generated.guard_simplify_selfing (v1_selfing_rate := .fin x) = decide (x = 0) := by
   unfold Generated.guard_simplify_selfing
   guard_close
 
 theorem guard_simplify_cloning_meaning (x : Q) :
-    Generated.guard_simplify_cloning (epoch_cloning_rate := .fin x) = decide (x = 0) := by
+    Generated.guard_simplify_cloning (v1_cloning_rate := .fin x) = decide (x = 0) := by
   unfold Generated.guard_simplify_cloning
   guard_close
 
 theorem guards_tie_epoch_simplified : Epoch.simplified = epochSimplifiedWith
-    (fun s e => Generated.guard_simplify_infer_constant (epoch_start_size := s) (epoch_end_size := e))
-    (fun f i => Generated.guard_simplify_size_function (epoch_size_function := f) (inferred_size_function := i))
-    (fun s e => Generated.guard_simplify_end_size (epoch_start_size := s) (epoch_end_size := e))
-    (fun x => Generated.guard_simplify_selfing (epoch_selfing_rate := x))
-    (fun x => Generated.guard_simplify_cloning (epoch_cloning_rate := x)) := by
+    (fun s e => Generated.guard_simplify_infer_constant (v1_start_size := s) (v1_end_size := e))
+    (fun f i => Generated.guard_simplify_size_function (v1_size_function := f) (v2 := i))
+    (fun s e => Generated.guard_simplify_end_size (v1_start_size := s) (v1_end_size := e))
+    (fun x => Generated.guard_simplify_selfing (v1_selfing_rate := x))
+    (fun x => Generated.guard_simplify_cloning (v1_cloning_rate := x)) := by
   funext e
   unfold Epoch.simplified epochSimplifiedWith
   simp only [guard_simplify_infer_constant_meaning, guard_simplify_size_function_meaning,
@@ -112,14 +112,14 @@ theorem guards_tie_epoch_simplified : Epoch.simplified = epochSimplifiedWith
 /-! ### demes -/
 
 theorem guard_simplify_start_inf_meaning (t : ETime) :
-    Generated.guard_simplify_start_inf (deme_start_time := Num.ofETime t) = t.isInf := by
+    Generated.guard_simplify_start_inf (v0_start_time := Num.ofETime t) = t.isInf := by
   unfold Generated.guard_simplify_start_inf
   cases t <;> guard_close
 
 /-- `"ancestors" in deme` (the dictionary was made with `keep_empty_fields=False`: the key is there iff the list is
 not empty) `and len(deme["ancestors"]) == 1` -/
 theorem guard_simplify_single_ancestor_meaning (as : List String) :
-    Generated.guard_simplify_single_ancestor (has_deme_ancestors := !as.isEmpty) (len_deme_ancestors := as.length)
+    Generated.guard_simplify_single_ancestor (has_v0_ancestors := !as.isEmpty) (len_v0_ancestors := as.length)
       = decide (as.length = 1) := by
   unfold Generated.guard_simplify_single_ancestor
   match as with
@@ -128,21 +128,21 @@ theorem guard_simplify_single_ancestor_meaning (as : List String) :
   | _ :: _ :: _ => simp
 
 theorem guard_simplify_unit_proportion_meaning (ps : List Q) :
-    Generated.guard_simplify_unit_proportion (deme_proportions := ps.map Num.fin) = (ps == [1]) := by
+    Generated.guard_simplify_unit_proportion (v0_proportions := ps.map Num.fin) = (ps == [1]) := by
   unfold Generated.guard_simplify_unit_proportion
   exact pyListEq_one ps
 
 theorem guard_simplify_start_implied_meaning (ancEnd : Q) (start : ETime) :
-    Generated.guard_simplify_start_implied (self_deme_ancestors_0_end_time := .fin ancEnd)
-      (deme_start_time := Num.ofETime start) = decide (ETime.fin ancEnd = start) := by
+    Generated.guard_simplify_start_implied (self_v0_ancestors_0_end_time := .fin ancEnd)
+      (v0_start_time := Num.ofETime start) = decide (ETime.fin ancEnd = start) := by
   unfold Generated.guard_simplify_start_implied
   cases start <;> guard_close
 
 theorem guards_tie_deme_simplified : Deme.simplified = demeSimplifiedWith
-    (fun t => Generated.guard_simplify_start_inf (deme_start_time := t))
-    (fun h n => Generated.guard_simplify_single_ancestor (has_deme_ancestors := h) (len_deme_ancestors := n))
-    (fun ps => Generated.guard_simplify_unit_proportion (deme_proportions := ps))
-    (fun e s => Generated.guard_simplify_start_implied (self_deme_ancestors_0_end_time := e) (deme_start_time := s)) := by
+    (fun t => Generated.guard_simplify_start_inf (v0_start_time := t))
+    (fun h n => Generated.guard_simplify_single_ancestor (has_v0_ancestors := h) (len_v0_ancestors := n))
+    (fun ps => Generated.guard_simplify_unit_proportion (v0_proportions := ps))
+    (fun e s => Generated.guard_simplify_start_implied (self_v0_ancestors_0_end_time := e) (v0_start_time := s)) := by
   funext g d
   unfold Deme.simplified demeSimplifiedWith
   simp only [guard_simplify_start_inf_meaning, guard_simplify_single_ancestor_meaning,
@@ -152,23 +152,23 @@ theorem guards_tie_deme_simplified : Deme.simplified = demeSimplifiedWith
 /-! ### migrations: the implied bounds -/
 
 theorem guard_simplify_mig_end_meaning (e s d : Q) :
-    Generated.guard_simplify_mig_end (migration_end_time := .fin e) (self_source_end_time := .fin s)
-      (self_dest_end_time := .fin d) = decide (qmax s d = e) := by
+    Generated.guard_simplify_mig_end (v8_end_time := .fin e) (self_v9_end_time := .fin s)
+      (self_v10_end_time := .fin d) = decide (qmax s d = e) := by
   unfold Generated.guard_simplify_mig_end
   guard_close
 
 theorem guard_simplify_mig_start_meaning (t s d : ETime) :
-    Generated.guard_simplify_mig_start (migration_start_time := Num.ofETime t)
-      (self_source_start_time := Num.ofETime s) (self_dest_start_time := Num.ofETime d)
+    Generated.guard_simplify_mig_start (v8_start_time := Num.ofETime t)
+      (self_v9_start_time := Num.ofETime s) (self_v10_start_time := Num.ofETime d)
       = decide (ETime.min s d = t) := by
   unfold Generated.guard_simplify_mig_start
   cases t <;> cases s <;> cases d <;> guard_close
 
 theorem guards_tie_strip_bounds : stripBounds = stripBoundsWith
-    (fun e s d => Generated.guard_simplify_mig_end (migration_end_time := e) (self_source_end_time := s)
-      (self_dest_end_time := d))
-    (fun t s d => Generated.guard_simplify_mig_start (migration_start_time := t) (self_source_start_time := s)
-      (self_dest_start_time := d)) := by
+    (fun e s d => Generated.guard_simplify_mig_end (v8_end_time := e) (self_v9_end_time := s)
+      (self_v10_end_time := d))
+    (fun t s d => Generated.guard_simplify_mig_start (v8_start_time := t) (self_v9_start_time := s)
+      (self_v10_start_time := d)) := by
   funext g m
   unfold stripBounds stripBoundsWith
   simp only [guard_simplify_mig_end_meaning, guard_simplify_mig_start_meaning]
@@ -177,18 +177,18 @@ theorem guards_tie_strip_bounds : stripBounds = stripBoundsWith
 /-! ### migrations: the symmetric search -/
 
 theorem guard_collapse_first_meaning (acc : List String) (x : String) :
-    Generated.guard_collapse_first (all_demes := acc) (pair_0 := x) = !acc.contains x := by
+    Generated.guard_collapse_first (v3 := acc) (v4_0 := x) = !acc.contains x := by
   unfold Generated.guard_collapse_first
   first | rfl | simp
 
 theorem guard_collapse_second_meaning (acc : List String) (x : String) :
-    Generated.guard_collapse_second (all_demes := acc) (pair_1 := x) = !acc.contains x := by
+    Generated.guard_collapse_second (v3 := acc) (v4_1 := x) = !acc.contains x := by
   unfold Generated.guard_collapse_second
   first | rfl | simp
 
 theorem guards_tie_collapse_demes : collapseDemes = collapseDemesWith
-    (fun acc x => Generated.guard_collapse_first (all_demes := acc) (pair_0 := x))
-    (fun acc x => Generated.guard_collapse_second (all_demes := acc) (pair_1 := x)) := by
+    (fun acc x => Generated.guard_collapse_first (v3 := acc) (v4_0 := x))
+    (fun acc x => Generated.guard_collapse_second (v3 := acc) (v4_1 := x)) := by
   funext pairs
   unfold collapseDemes collapseDemesWith
   simp only [guard_collapse_first_meaning, guard_collapse_second_meaning]
@@ -197,18 +197,18 @@ theorem guards_tie_collapse_demes : collapseDemes = collapseDemesWith
   cases h1 : acc.contains p.1 <;> simp [h1] <;> split <;> simp_all <;> grind
 
 theorem guard_simplify_single_pair_meaning (n : Nat) :
-    Generated.guard_simplify_single_pair (len_pairs := n) = decide (n = 1) := by
+    Generated.guard_simplify_single_pair (len_v14 := n) = decide (n = 1) := by
   unfold Generated.guard_simplify_single_pair
   grind
 
 theorem guard_simplify_search_loop_meaning (n i : Nat) :
-    Generated.guard_simplify_search_loop (len_all_demes := n) (i := .fin (i : Q)) = decide (n ≥ 2 ∧ i ≥ 2) := by
+    Generated.guard_simplify_search_loop (len_v15 := n) (v16 := .fin (i : Q)) = decide (n ≥ 2 ∧ i ≥ 2) := by
   unfold Generated.guard_simplify_search_loop
   have h : ((2 : Q) ≤ (i : Q)) ↔ 2 ≤ i := by exact_mod_cast Iff.rfl
   simp [le_fin_fin, h]
 
 theorem guards_tie_search_loop : searchLoop = searchLoopWith
-    (fun n i => Generated.guard_simplify_search_loop (len_all_demes := n) (i := i)) := by
+    (fun n i => Generated.guard_simplify_search_loop (len_v15 := n) (v16 := i)) := by
   funext k fuel
   induction fuel with
   | zero => funext a i st; simp only [searchLoop, searchLoopWith]
@@ -218,7 +218,7 @@ theorem guards_tie_search_loop : searchLoop = searchLoopWith
     first | done | rfl
 
 theorem guards_tie_simplify_migrations : simplifyMigrations = simplifyMigrationsWith
-    (fun n => Generated.guard_simplify_single_pair (len_pairs := n)) := by
+    (fun n => Generated.guard_simplify_single_pair (len_v14 := n)) := by
   funext g
   unfold simplifyMigrations simplifyMigrationsWith
   simp only [guard_simplify_single_pair_meaning, decide_eq_true_eq]
@@ -229,15 +229,15 @@ theorem guards_tie_simplify_migrations : simplifyMigrations = simplifyMigrations
 /-- `asdict(keep_empty_fields=False)` drops exactly the empty sized fields (and always `_deme_map`);
 `asdict()` keeps everything but `_deme_map` -/
 theorem guard_asdict_keep_field_meaning (name : String) (sized : Bool) (n : Nat) :
-    Generated.guard_asdict_keep_field (keep_empty_fields := false) (hasattr_value_len := sized) (len_value := n)
-        (attrib_name := name) = (!(sized && n == 0) && name != "_deme_map")
-    ∧ Generated.guard_asdict_keep_field (keep_empty_fields := true) (hasattr_value_len := sized) (len_value := n)
-        (attrib_name := name) = (name != "_deme_map") := by
+    Generated.guard_asdict_keep_field (keep_empty_fields := false) (hasattr_p1_len := sized) (len_p1 := n)
+        (p0_name := name) = (!(sized && n == 0) && name != "_deme_map")
+    ∧ Generated.guard_asdict_keep_field (keep_empty_fields := true) (hasattr_p1_len := sized) (len_p1 := n)
+        (p0_name := name) = (name != "_deme_map") := by
   unfold Generated.guard_asdict_keep_field
   cases sized <;> simp
 
 theorem guard_simplify_has_migrations_meaning (b : Bool) :
-    Generated.guard_simplify_has_migrations (has_data_migrations := b) = b := by
+    Generated.guard_simplify_has_migrations (has_v23_migrations := b) = b := by
   unfold Generated.guard_simplify_has_migrations
   first | rfl | simp
 
